@@ -162,4 +162,11 @@ theorem gen_cmd_prune :
     Gen.site_shape_cmd_prune_found = true := by
   decide
 
+/-- **regenerated obligation**: `desync verify` hands every invocation to the store's `Verify` with the worker
+    count and the repair flag the user gave; no path returns success before that call -/
+theorem gen_cmd_verify_delegates :
+    Gen.cmdVerifyShape = ["call(ctx,opt.n,opt.repair,stderr)"] ∧
+    Gen.site_shape_cmdVerifyShape_found = true := by
+  decide
+
 end Desync.C16
